@@ -4,7 +4,7 @@ from __future__ import annotations
 ID = "C20"
 BOUNDS = {
     "quick": "datagram length L: (a) L = 0..9 fully symbolic (any header); (b) for each of the service types of KNXIPServiceType with a valid 6-octet header: total_length == L for L = 6..40 (list-structured bodies SEARCH_RESPONSE[_EXTENDED]/SEARCH_REQUEST_EXTENDED/DESCRIPTION_RESPONSE: up to 6 octets of DIB/SRP list, plus bodies starting with a 54-octet device-information DIB followed by 0..4 octets; TUNNELLING_FEATURE_* up to L = 24) and total_length symbolic (any value) for L = 6..12; all body octets symbolic; per-path budget 20 s (non-termination is reported as a hang)",
-    "thorough": "(a) L = 0..10; (b) exact-length L = 6..44, symbolic total_length for L = 6..13",
+    "thorough": "(a) L = 0..10; (b) exact-length L = 6..44 (list-structured bodies: up to 8 octets of DIB/SRP list, device-information bodies followed by 0..6 octets, TUNNELLING_FEATURE_* up to L = 32), symbolic total_length for L = 6..12",
 }
 OUTSIDE = "datagrams longer than the bound (SecureWrapper/SearchResponse bodies beyond it); text content of DIB device names (opaque placeholder strings)"
 ASSUMPTIONS = [
@@ -22,17 +22,17 @@ REQUIRED_REACH = ["frame", "CouldNotParseKNXIP", "IncompleteKNXIPFrame"]
 def jobs(tier, seed):
     from xknx.knxip.knxip_enum import KNXIPServiceType
     out = []
-    a_top, ex_top, sy_top = (9, 40, 12) if tier == "quick" else (10, 44, 13)
+    a_top, ex_top, sy_top = (9, 40, 12) if tier == "quick" else (10, 44, 12)
     for L in range(0, a_top + 1):
         out.append(dict(name=f"any-L{L}", mode="any", L=L, cost=L * 3))
     LISTS = {"SEARCH_RESPONSE": 14, "SEARCH_RESPONSE_EXTENDED": 14, "SEARCH_REQUEST_EXTENDED": 14, "DESCRIPTION_RESPONSE": 6}
-    list_room = 6 if tier == "quick" else 12
+    list_room = 6 if tier == "quick" else 8
     for st in KNXIPServiceType:
         # exact-length jobs are grouped per service type in chunks of lengths; symbolic total_length separately
         top = ex_top if st.name not in LISTS else LISTS[st.name] + list_room
         step = 9 if st.name not in LISTS else 1
         if st.name.startswith("TUNNELLING_FEATURE"):
-            top, step = (24 if tier == "quick" else 48), 3     # enum x enum forks per length; longer bodies are length-uniform
+            top, step = (24 if tier == "quick" else 32), 3     # enum x enum forks per length; longer bodies are length-uniform
         exl = list(range(6, top + 1))
         for i in range(0, len(exl), step):
             out.append(dict(name=f"exact-{st.name}-{exl[i]}", mode="exact", st=st.value, Ls=exl[i:i + step], cost=20 if st.name not in LISTS else 30 + exl[i]))
@@ -42,7 +42,7 @@ def jobs(tier, seed):
         if st.name in ("SEARCH_RESPONSE", "SEARCH_RESPONSE_EXTENDED", "DESCRIPTION_RESPONSE"):
             # bodies that start with a 54-octet device information DIB followed by up to 8 further octets
             off = LISTS[st.name]
-            for extra in range(0, (4 if tier == "quick" else 8) + 1, 2):
+            for extra in range(0, (4 if tier == "quick" else 6) + 1, 2):
                 out.append(dict(name=f"devinfo-{st.name}-{extra}", mode="exact", st=st.value, Ls=[off + 54 + extra], devinfo_at=off, cost=40 + extra))
     for j in out:
         j["tier"] = tier
